@@ -12,7 +12,7 @@ from ..defuse import DefUse, Terms, show, walk_term
 from ..defuse import key as tkey
 from ..paths import path_variants
 from ..tutil import (EvUnknown, apply_partials, bound_args, ev_term, lin,
-                     seq_concat)
+                     seq_concat, text_parts)
 
 EXPLANATION = (
     "Static analysis of parsers.pin_to_tsv.convert_line_pin_to_tsv / "
@@ -391,8 +391,16 @@ def _to_valid(ctx, f):
             cs.append((c, o))
         lp = cfg.enclosing(w, (ast.For, ast.While))
         facts.append({"node": w, "term": t, "conds": cs, "loop": lp})
-    hdrs = [x for x in facts if x["term"][0] == "bin" and x["term"][3] == NL
-            and _strip_of(x["term"][2]) == NEXT]
+    def line_of(t):
+        """X when the text written is X followed by one newline, however
+        it is put together (+, f-string, % or format)"""
+        ps = text_parts(t)
+        if len(ps) == 2 and ps[1] == NL:
+            return ps[0]
+        return None
+
+    hdrs = [x for x in facts if line_of(x["term"]) is not None
+            and _strip_of(line_of(x["term"])) == NEXT]
     ok_h = len(hdrs) == 1 and not hdrs[0]["conds"] and \
         hdrs[0]["loop"] is None and all(
             cfg.every_path_passes(
@@ -411,14 +419,15 @@ def _to_valid(ctx, f):
     HP = None
     for x in others:
         t = x["term"]
-        ok = t[0] == "bin" and t[3] == NL and t[2][0] == "call" and \
-            t[2][1] == conv.qual
+        body = line_of(t)
+        ok = body is not None and body[0] == "call" and \
+            body[1] == conv.qual
         ctx.check(ok, "C19b-writes-converted-line", f,
                   "what is written is the converted line plus a newline",
                   show(t, 100), node=x["node"])
         if not ok:
             continue
-        b = bound_args(prog, t[2]) or {}
+        b = bound_args(prog, body) or {}
         x["line"] = b.get("line")
         nc, ic = b.get("n_col"), b.get("idx_protein_col")
         ok = (nc is not None and ic is not None and nc[0] == "item"
